@@ -56,16 +56,28 @@ Init ==
   \/ Mode = "pairs"   /\ \E a \in NamesUpTo(N), b \in NamesUpTo(N) : v = <<a, b>> /\ (Len(a) = 0 \/ InShard(a[1]))
 Next == UNCHANGED v
 
+\* classification only (finding keys): how many leading labels of a refused name are themselves fine, i.e. may have been
+\* written (and remembered for compression) before the packer met the reason to refuse; 0 when the total length decides
+RECURSIVE LeadOK(_)
+LeadOK(n) == IF n = <<>> \/ Len(Head(n)) < 1 \/ Len(Head(n)) > MaxLabel THEN 0 ELSE 1 + LeadOK(Tail(n))
+Lead(n) == IF WireLen(n) > MaxName THEN 0 ELSE LeadOK(n)
+
 StringVector(s) ==
   LET p == Parse(s) IN
   [kind |-> "string", s |-> s, st |-> p.st, fq |-> p.fq, isfqdn |-> IsFqdnSpec(s),
    accept |-> IF p.st = "ok" /\ p.fq THEN ValidName(p.labels) ELSE FALSE,
    labels |-> p.labels,
-   wire |-> IF p.st = "ok" /\ ValidName(p.labels) THEN EncName(p.labels) ELSE <<>>]
+   wire |-> IF p.st = "ok" /\ ValidName(p.labels) THEN EncName(p.labels) ELSE <<>>,
+   \* the parent name (context of the compressed-pack sequence: parent, name, name again over one compression map)
+   ptext |-> IF p.st = "ok" /\ Len(p.labels) >= 1 THEN Present(Tail(p.labels)) ELSE <<>>,
+   pvalid |-> IF p.st = "ok" /\ Len(p.labels) >= 1 THEN ValidName(Tail(p.labels)) ELSE FALSE,
+   lead |-> Lead(p.labels), plead |-> IF p.st = "ok" /\ Len(p.labels) >= 1 THEN Lead(Tail(p.labels)) ELSE 0]
 
 NameVector(n) ==   \* a name given abstractly: expected text, wire and validity
   [kind |-> "name", labels |-> n, valid |-> ValidName(n), text |-> Present(n), wire |-> EncName(n),
-   wirelen |-> WireLen(n)]
+   wirelen |-> WireLen(n),
+   ptext |-> IF Len(n) >= 1 THEN Present(Tail(n)) ELSE <<>>, pvalid |-> IF Len(n) >= 1 THEN ValidName(Tail(n)) ELSE FALSE,
+   lead |-> Lead(n), plead |-> IF Len(n) >= 1 THEN Lead(Tail(n)) ELSE 0]
 
 
 \* Mode "texts" (C19): every valid text over the property's alphabet, in ANY escape spelling
